@@ -27,18 +27,19 @@ ASSUMPTIONS = ['the projection of a V2 value onto V1 is computed on my ASTs: unk
                'V2 modules are re-checked for X.680 tag distinctness by my own tag computation before use']
 REPORT = ['pairs', 'evaluations', 'v2_to_v1', 'v1_to_v2', 'v2_values_using_additions', 'with_following_component',
           'step:add_component', 'step:add_group', 'step:add_alternative', 'step:add_enum_item', 'step:widen', 'carved_out']
-FLOORS = {'quick': {'evaluations': 15000, 'v2_values_using_additions': 1500}, 'thorough': {'evaluations': 150000}}
+FLOORS = {'quick': {'evaluations': 15000, 'v2_values_using_additions': 1500},
+          'thorough': {'evaluations': 60000, 'v2_values_using_additions': 6000}}
 TIMEOUT = {'quick': 1800, 'thorough': 14000}
 
 
 def shards(tier):
-    return 32 if tier == 'quick' else 128
+    return 32 if tier == 'quick' else 64
 
 
 def params(tier):
     if tier == 'quick':
         return {'pairs': 5, 'values': 6}
-    return {'pairs': 20, 'values': 10}
+    return {'pairs': 15, 'values': 9}
 
 
 def profile(tier):
